@@ -1676,6 +1676,9 @@ func (q *seq) quorumMonitor(op string, pre, post snap) {
 	if post.next != pre.next && strings.HasPrefix(op, "vote") && q.crossedBy == nil {
 		out.Violate("C05/C06 vote: a vote that did not complete a quorum issued an id")
 	}
+	if w := strings.Fields(op); (w[0] == "vote" || w[0] == "obs") && q.crossedBy == nil && (pre.obsExt != post.obsExt || q.line("", pre) != q.line("", post)) {
+		out.Violate("C05/C06 vote without a quorum changed state: a claim that did not complete a quorum changed the observed heights / event nonce, the pool, the batches, the bridge calls or a balance (only an event observed by a quorum may do that)")
+	}
 	if q.crossedBy == nil || q.e.k.GetLastObservedEventNonce(q.ctx) != q.crossedNonce {
 		return
 	}
